@@ -23,6 +23,7 @@ CheckOf(e) ==
     [] e.e = "Silence" -> SilenceCheck(e.on = 1, e.t)
     [] e.e = "Reopen" -> ReopenCheck(e.t)
     [] e.e = "Age" -> AgeCheck(e.k, e.t)
+    [] e.e = "Tagged" -> TaggedCheck(e.r, e.tag, e.t)
     [] e.e = "End" -> EndCheck(e.t)
     [] OTHER -> "harness.unknownEvent"
 
@@ -40,6 +41,7 @@ UpdOf(e) ==
     [] e.e = "Silence" -> SilenceUpd(e.on = 1, e.t)
     [] e.e = "Reopen" -> ReopenUpd(e.t)
     [] e.e = "Age" -> AgeUpd(e.k, e.t)
+    [] e.e = "Tagged" -> TaggedUpd(e.r, e.tag, e.t)
     [] e.e = "End" -> EndUpd(e.t)
 
 TNext == /\ verdict = "ok" /\ l <= Len(Ev)
